@@ -192,9 +192,8 @@ def explore(run, mode, runs, prefixes, procs=8):
     judged by StoreConcTrace.tla without any model prediction"""
     pid = run.pid
     wd = vlib.workdir(pid)
-    binp = os.path.join(wd, "conch.test")
-    if not os.path.exists(binp):
-        vlib.go_build_test("conch", binp)
+    binp = os.path.join(wd, "conch_explore.test")
+    vlib.go_build_test("conch", binp)      # always rebuilt from the current tree
     per = max(1, runs // procs)
 
     def one(i):
